@@ -255,6 +255,7 @@ def run_one(seed, tier, explicit=None):
             wn._db.connect()
             sim.save()
             pre = observe.raw_dump(sim.W.dbpath())
+            sim.W.short_reads = prng.random() < 0.5      # chunk boundaries anywhere
             quote = prng.choice(['"', "'"])
             indent = prng.random() < 0.8
             style = None
